@@ -298,10 +298,12 @@ func (w *world) await(want snapshot) (snapshot, []string, bool) {
 }
 
 var reBrokerFrame = regexp.MustCompile(
-	`isaac/states\.\(\*Handover[XY]Broker\)\.|isaac/states\.(retry|endure)HandoverSendMessageFunc`)
+	`isaac/states\.\(\*Handover[XY]Broker\)\.|isaac/states\.(retry|endure)HandoverSendMessageFunc` +
+		`|internal/handover\.\(\*world\)\.goCall\.func1`)
 
-// brokersQuiet: no goroutine is inside broker code except those parked in the
-// harness network (SendMessageFunc). The continuation of a sender after its
+// brokersQuiet: no goroutine is inside broker code - or is a call the harness
+// started (goCall) that has not returned, even one that was not scheduled yet -
+// except those parked in the harness network (SendMessageFunc). The continuation of a sender after its
 // request was answered (e.g. the reset of sendFailureCount after a good send)
 // has no observable end; without this the next step could overtake it.
 func brokersQuiet() bool {
